@@ -171,13 +171,17 @@ impl MuxRun {
     pub fn step(&mut self, t: &[&str]) -> Option<StepOut> {
         let mut fails = vec![];
         let out = match t {
-            ["send", k] => {
+            ["send", k] | ["send", k, "e"] => {
+                let unencodable = t.len() == 3;
                 let k: usize = k.parse().ok()?;
                 if self.caller(k).is_some() {
                     "bad".to_string()
                 } else {
                     let mut msg = Message::new(0, MessageType::Query, OpCode::Query);
                     msg.queries.push(Query::new(Name::from_ascii(format!("r{k}.test.")).ok()?, RecordType::A));
+                    if unencodable {
+                        msg.additionals.push(super::udp::unencodable_record());
+                    }
                     let req = DnsRequest::new(msg, DnsRequestOptions::default());
                     let mux = &mut self.mux;
                     match catch(|| mux.send_message(req)) {
